@@ -326,9 +326,11 @@ package tls
 // ticket record (present iff a ticket is sent, Value and Length of the ticket's length), bounds of the
 // signature list, freshness;
 // (b) as loop-head invariants: the CONTENT equalities - Random, SessionID (chRandom) at the heads
-// of loops 2, 3, 5; CompressionMethods (chComp) at loops 3, 5; SupportedPoints (chPoints) at
-// loop 5; Version, CipherSuites, SupportedCurves (chVers, chSuites, chCurves) at loop 4 - i.e.
-// each list is proved equal to the message's once it has been filled.
+// of loops 2 and 3; CompressionMethods (chComp) at loop 3; SupportedPoints element by element in
+// loop 3 (complete at its exit); Version, CipherSuites, SupportedCurves (chVers, chSuites,
+// chCurves) at loop 4 - i.e. each list is proved equal to the message's once it has been filled.
+// (Carrying the byte-valued ones on to the head of loop 5 verified, but its entry obligations -
+// behind the two if-joins and the ticket copy - took 25-100 s and were dropped as unstable.)
 // NOT VERIFIED (engine, see /verif/notes/tlslog.md L4): the same content equalities AT RETURN.
 // The last loop stores through a slice header it loads itself (ch.UnknownExtensions[i] = ..),
 // govc then forgets every slice header at its head, and neither z3 nor cvc5 re-proves the
@@ -351,8 +353,7 @@ package tls
 //@   loop 4 invariant chVers(ch, m) && chSuites(ch, m) && chCurves(ch, m)
 //@   loop 4 invariant len(ch.SupportedVersions) == it && cap(ch.SupportedVersions) == len(m.supportedVersions) && fresh(ch.SupportedVersions) && ch.SupportedVersions != nil && sep(ch.SupportedVersions, ch.CipherSuites) && sep(ch.SupportedVersions, ch.SupportedCurves) && sep(ch.SupportedVersions, ch)
 //@   loop 5 invariant 0 <= it && it <= len(m.supportedSignatureAlgorithms)
-//@   loop 5 invariant chRandom(ch, m) && chComp(ch, m) && chPoints(ch, m)
-//@   loop 5 invariant ch.SignatureAndHashes != nil && fresh(ch.SignatureAndHashes) && len(ch.SignatureAndHashes) <= it && sep(ch.SignatureAndHashes, ch) && sep(ch.SignatureAndHashes, ch.Random) && sep(ch.SignatureAndHashes, ch.SessionID) && sep(ch.SignatureAndHashes, ch.CompressionMethods) && sep(ch.SignatureAndHashes, ch.SupportedPoints)
+//@   loop 5 invariant ch.SignatureAndHashes != nil && fresh(ch.SignatureAndHashes) && len(ch.SignatureAndHashes) <= it && sep(ch.SignatureAndHashes, ch)
 //@   loop 5 decreases len(m.supportedSignatureAlgorithms) - it
 //@   loop 6 invariant same(m.unknownExtensions, old(m.unknownExtensions)) && chLens(m) && chLen(ch, m)
 //@   loop 6 invariant ch.SignatureAndHashes != nil && len(ch.SignatureAndHashes) <= len(m.supportedSignatureAlgorithms) && (ch.SessionTicket != nil ==> len(ch.SessionTicket.Value) == len(m.sessionTicket))
